@@ -869,7 +869,14 @@ class Ctx:
         except z3.Z3Exception as e:
             self.ex.solver_exceptions.append(str(e))
             return z3.unknown, None
-        return r, (s2.model() if r == z3.sat else None)
+        if r == z3.sat:
+            m = s2.model()
+            if extra is not None and not self._model_satisfies(m, extra):
+                # a `sat` whose own model falsifies the query or a path-condition conjunct is not a verdict
+                self.ex.solver_exceptions.append('one-shot sat answer with a falsifying model: treated as unknown')
+                return z3.unknown, None
+            return r, m
+        return r, None
 
     def _safe_check(self, *assumptions: Any) -> Any:
         try:
